@@ -37,7 +37,7 @@ def budget(tier):
 # ---------------------------------------------------------------------- programs
 
 BOUNDS = {}   # argument name -> exclusive upper bound for integer arguments that index or count
-QFAMS = ['Q1', 'Q2', 'Q3', 'Q4', 'Q5', 'Q6', 'Q7', 'Q8', 'Q8']
+QFAMS = ['Q1', 'Q2', 'Q3', 'Q4', 'Q5', 'Q6', 'Q7', 'Q8', 'Q8', 'Q9']
 
 
 def build_q(prog):
@@ -106,7 +106,31 @@ def build_q(prog):
         AA = ev.Sin(A) * A      # computed, argument free, not folded by the simplifier
         vv = ev.Cos(v) + v
         return (ev.InsertAxis(vv, cnt), ev.get(AA, 0, idx), ev.InsertAxis(ev.Sum(vv), cnt), ev.Sum(AA) + ev.astype(cnt, float), AA), args
+    if fam == 'Q9':  # values that live in library objects (transform items of a plain sequence): chains of one and of several items, handed out directly and through views
+        from nutils import transformseq, transform
+        nd = 1 + m % 2
+        nch = max(2, n)
+        chains = []
+        for q in range(nch):
+            chain = [transform.Index(nd, q)]
+            for _ in range((q + prog['dseed']) % 3):     # chain lengths 1, 2, 3 mixed
+                chain.append(_child(nd, rng))
+            chains.append(tuple(chain))
+        seq = transformseq.PlainTransforms(tuple(chains), nd, nd)
+        idx = ev.InRange(ev.Argument('idx', (), int), c(nch))
+        args['idx'] = numpy.array(0)
+        BOUNDS.update(idx=nch)
+        P = arg('p', (n, nd))
+        lin = ev.TransformLinear(None, seq, idx)
+        co = ev.TransformCoords(None, seq, idx, P)
+        return (lin, ev.Transpose(lin, (1, 0)), ev.get(lin, 0, c(0)), ev.InsertAxis(lin, c(2)), co, lin * lin), args
     raise ValueError(fam)
+
+
+def _child(nd, rng):
+    from nutils import transform, element
+    ref = element.LineReference() if nd == 1 else element.TriangleReference()
+    return ref.child_transforms[rng.randrange(len(ref.child_transforms))]
 
 
 def build_fem(prog):
